@@ -338,3 +338,10 @@ def run(ctx):
         rule_fn(sub2, f2)
         ctx.control('%s_ok silent (%s)' % (name, expect), not sub2.violations(expect) and len(sub2.obs) > 0)
 XREF_FILES = ["src/library.cpp", "src/rawcell.cpp", "src/gdsii.cpp", "src/oasis.cpp"]
+
+
+MANIFEST = dict(
+   text='Decides, for every CFG path of the eight file readers, the structural necessary conditions of crash/leak/false-success freedom: no exit edge carries an open FILE* (R-PAIR, incl. the ref-counted RawSource idiom and its guard), every loop makes progress on every path (R-LOOP), nullable results are tested before use (R-NULL), success returns are dominated by the ENDLIB arm and error exits return an empty value and set the error code (R-MUSTPASS), every gdsii_read_record result is checked and its short-read tests compare the fread result with the requested count (R-ERRCHK, linear normalisation), copies into fixed-size objects are bounded (R-BOUND). All paths / all exits, no input bound. Does not decide absence of every memory error for every byte pattern, nor checksum coincidences.',
+   note='Trusted: clang 14 front end and clang::CFG, tools/gx/gx.cc, sa/*.py; libc model (fopen may return NULL, fclose releases, fread returns item count); callee summaries only for functions under /repo. Path-insensitive joins only add states, so a pass covers all feasible paths.',
+   technique='custom typestate / dominance / loop-progress dataflow over the clang CFG (libTooling extractor + Python rules)',
+   design='§4 C18')
